@@ -126,6 +126,18 @@ CLAIMED["C09"] = dict(
     technique="guard / sibling-agreement rules over resolved callees and MIR path tables",
 )
 
+CLAIMED["C07"] = dict(
+    category="other",
+    text=("Structural clauses: R7.1 all 121 Euclidean Distance instances (resolved by rustc) are flip / delegate(conversion) / Geometry match / "
+          "min-fold(max_value, acc.min(distance(member, other))) or one of 8 enumerated kernels, flips well founded - symmetry and independence of "
+          "typing/wrapping by construction; R7.2 every kernel with a 1-/2-dimensional operand returns the literal zero exactly under the exact "
+          "intersects(a,b), decided first (empty operands excepted); R7.3 containment-branch tables of Polygon x Polygon and LineString x Polygon; "
+          "R7.4 clamp table of line_segment_distance. Not decided: that the R-tree vertex/segment minimum is the true minimum; rounding."),
+    design_ref="DESIGN.md §4 C07",
+    note="Trusted: rstar nearest-neighbour queries; Intersects (C02/C03). Known finding: Point x LineString zero shortcut uses an epsilon test (listed in known_findings.txt).",
+    technique="dispatch classification over the resolved instance graph + guard/branch tables by MIR path enumeration",
+)
+
 NOT_YET = "rule set not implemented in this revision of /verif (see DESIGN.md §7 build order); nothing is claimed"
 NA = {}
 
